@@ -68,8 +68,33 @@ class ConstructionFailed(Exception):
         self.obj = o
 
 
+from functools import lru_cache as _lru
+
+
+@_lru(maxsize=100000)
+def _valid(o):
+    """model-side validity of an operand (a harness that feeds invalid operands must fail as a
+    harness error, never as a library violation)."""
+    k = o[0]
+    if k in ('Line', 'HalfLine', 'Plane'):
+        return not X.is_zero(o[2])
+    if k == 'Segment':
+        return X.frv(o[1]) != X.frv(o[2])
+    if k == 'ConvexPolygon':
+        return len(o[1]) >= 3 and X.rank_pts(o[1]) == 2 and X.is_convex_position(o[1])
+    if k == 'ConvexPolyhedron':
+        return len(o[1]) >= 4 and X.rank_pts(o[1]) == 3 and X.is_convex_position(o[1])
+    return True
+
+
+class InvalidScene(Exception):
+    pass
+
+
 def to_lib(o):
     """exact model object -> freshly constructed library object (public constructors only)."""
+    if o is not None and not _valid(o):
+        raise InvalidScene('harness built an invalid %s: %r' % (o[0], o))
     try:
         return _to_lib(o)
     except (LibTimeout, ConstructionFailed):
